@@ -188,6 +188,24 @@ func mkbin(op string, a, b *T, ty types.Type) *T {
 		if b.IsConstVal(0) {
 			return a
 		}
+		// (x + k) - c with k >= c is x + (k-c), also in modular arithmetic
+		if b.IsConst() && a.Op == "add" {
+			var rest []*T
+			k, have := int64(0), false
+			for _, x := range a.A {
+				if x.IsConst() && !have {
+					k, have = x.C, true
+				} else {
+					rest = append(rest, x)
+				}
+			}
+			if have && k >= b.C && len(rest) > 0 {
+				if k > b.C {
+					rest = append(rest, tconst(k-b.C, ty))
+				}
+				return mkadd(rest, ty)
+			}
+		}
 		return &T{Op: "sub", A: []*T{a, b}, Ty: ty}
 	case "/":
 		return &T{Op: "quo", A: []*T{a, b}, Ty: ty}
